@@ -87,10 +87,9 @@ def canon(x):
     kd = kind_of(x)
     if kd == "ConfusionMatrix":
         return ("cm", _nd(x.matrix), _nd(np.asarray(x.classes)), bool(x.binary))
-    if kd == "GroupScores":
-        return ("gscores", fingerprint(x))
-    if kd == "Scores":
-        return ("scores", fingerprint(x))
+    if kd in ("GroupScores", "Scores"):
+        # value equality of result objects: the writeable flag of their arrays is not part of the value
+        return (kd, _strip_flags(fingerprint(x)))
     if kd == "ROCCurve":
         return ("roc", canon(x.fnr), canon(x.fpr), canon(x.thresholds), canon(x.fnr_ci), canon(x.fpr_ci))
     if isinstance(x, BaseException):
@@ -105,6 +104,14 @@ def canon(x):
     if kd == "BiasFrame":
         return ("bias", canon(x.values), canon(x.alpha), canon(x.lower), canon(x.upper))
     return ("repr", repr(x))
+
+
+def _strip_flags(fp):
+    if isinstance(fp, tuple):
+        if len(fp) == 5 and fp and fp[0] == "nd" and isinstance(fp[-1], bool):
+            return fp[:-1]
+        return tuple(_strip_flags(v) for v in fp)
+    return fp
 
 
 def digest(obj):
